@@ -12,11 +12,16 @@ use std::io::Write;
 pub struct Op {
     pub name: &'static str,
     pub args: Vec<i128>,
+    /// optional byte-string argument (printed as `x01<hex>`: a sentinel byte, then the bytes)
+    pub blob: Option<Vec<u8>>,
 }
 
 impl Op {
     pub fn new(name: &'static str, args: &[i128]) -> Op {
-        Op { name, args: args.to_vec() }
+        Op { name, args: args.to_vec(), blob: None }
+    }
+    pub fn with_blob(name: &'static str, args: &[i128], blob: &[u8]) -> Op {
+        Op { name, args: args.to_vec(), blob: Some(blob.to_vec()) }
     }
     pub fn text(&self) -> String {
         let mut s = self.name.to_string();
@@ -24,7 +29,24 @@ impl Op {
             s.push(' ');
             s.push_str(&a.to_string());
         }
+        if let Some(b) = &self.blob {
+            s.push_str(" x01");
+            s.push_str(&hex(b));
+        }
         s
+    }
+    /// split the argument words of an op line into integers and an optional blob
+    pub fn parse_args(words: &[&str]) -> (Vec<i128>, Option<Vec<u8>>) {
+        let mut args = vec![];
+        let mut blob = None;
+        for w in words {
+            if let Some(h) = w.strip_prefix("x01") {
+                blob = Some(unhex(h));
+            } else if let Ok(v) = w.parse() {
+                args.push(v);
+            }
+        }
+        (args, blob)
     }
 }
 
@@ -75,6 +97,10 @@ pub trait Sut {
     fn oracle(&self, pre: &[u8], op: &Op, out: &OpOut, post: &[u8]) -> Vec<Finding>;
     /// label(s) describing which interesting branch this transition exercised (coverage histogram)
     fn classify(&self, pre: &[u8], op: &Op, out: &OpOut, post: &[u8]) -> Vec<&'static str>;
+    /// further initial byte states explored alongside the zero buffer (BFS) / used as random starting points
+    fn extra_initials(&self) -> Vec<Vec<u8>> {
+        vec![]
+    }
     /// byte offset (mod 16) the buffer must start at (alignment of what follows an odd-sized prefix)
     fn skew(&self) -> usize {
         0
@@ -211,6 +237,15 @@ pub fn bfs(sut: &dyn Sut, out: &mut dyn Write, limits: &Limits) -> Stats {
     states.push(init.clone());
     parents.push((0, String::new()));
     writeln!(out, "S 0 {}", hex(&init)).unwrap();
+    for e in sut.extra_initials() {
+        if !ids.contains_key(&e) {
+            let i = states.len();
+            ids.insert(e.clone(), i);
+            writeln!(out, "S {} {}", i, hex(&e)).unwrap();
+            states.push(e);
+            parents.push((0, String::new()));
+        }
+    }
     let mut next = 0usize;
     while next < states.len() {
         let pre = states[next].clone();
